@@ -85,7 +85,7 @@ CLAIMED = {
              '(fields, repr, derives, no #[codec] attribute, no manual impl) is checked by a theorem over Generated.lean. Correspondence on the public '
              'Encode/Decode/MaxEncodedLen API and byte views (8-bit exhaustive), under both build profiles (a seeded hand-written Encode that only panics under overflow checks showed the need). '
              'SfxProps/C10Serde.lean: the serde representation (crate feature serde, through serde_json and serde_cbor, both offline): ser = exactly {"bits":<canonical decimal>} independent of the layout, '
-             'de(ser x) = x, out-of-range integers rejected, Wrapping identical, white space and the sequence form accepted; 0.3 M requests incl. ~120 rejection classes.',
+             'de(ser x) = x, out-of-range integers rejected, Wrapping identical, white space and the sequence form accepted; 0.3 M requests incl. ~120 rejection classes. SfxProps/C10Spec.lean: little-endian as a sentence with one solution: n/8 entries, each a byte, sum b_i*256^i = the n-bit pattern (leBytes_is_le, le_unique, fromLe_lt, encode_by_sentence).',
         design_ref='7/C10', note=COMMON_NOTE + ' parity-scale-codec derive semantics (fields in order, PhantomData encodes to nothing) are assumed and cross-checked by the correspondence.',
         technique='Lean 4 proof over executable model + translator-checked struct description + differential correspondence'),
     'C11': dict(
